@@ -24,6 +24,7 @@
 import KskmProofs.Lemmas.C19Effects
 import KskmProofs.Lemmas.C19Inventory
 import KskmProofs.Lemmas.C19Listing
+import KskmProofs.Lemmas.C19Relookup
 import KskmProofs.Lemmas.C18Run
 import KskmProofs.C14
 namespace Kskm.C19
@@ -199,6 +200,62 @@ theorem keygen_reports_generated_key (ext : Externals) (cfg : KmConfig) (mods : 
             have hlab : key.label = label := hfound.2.2.1
             refine ⟨key, pk, hlook, hpk, hlab, ?_⟩
             rw [← hlab]; exact hres.symm
+
+/-- … and that key text is the RFC 3110 encoding of THE KEY THAT WAS GENERATED: in a well-formed store,
+    a successful `keygen` reports the tags and DS of `rsaEncode(exponent, modulus)` of the very pool key
+    whose pair it added (so `keygen_reports_tags` speaks of the new key, not of some other object). -/
+theorem keygen_reports_new_key (ext : Externals) (cfg : KmConfig) (mods : List P11Module) (alg : Nat)
+    (size : Option Nat) (label : String) (st st' : Store) (rep : KeygenReport) (hw : st.WF)
+    (h : (keygenP ext cfg mods alg size (some label)).runSt st = (.ok rep, st')) :
+    ∃ path slot k pk, Generated label path slot k st st' ∧
+      rsaEncode (beNat k.exponent) k.modulus = .ok pk ∧ keygenReport ext cfg alg label pk = .ok rep := by
+  obtain ⟨key, pk, hlook, hpk, _, hrep⟩ := keygen_reports_generated_key ext cfg mods alg size label st st' rep h
+  rcases keygenP_cases ext cfg mods alg size label st with ⟨_, e, he⟩ | ⟨_, path, slot, k, _, _, _, hex, _, _, _, hgen, _, _⟩
+  · rw [h] at he; cases he
+  · rw [h] at hgen
+    simp only at hgen
+    refine ⟨path, slot, k, pk, hgen, ?_, hrep⟩
+    have hnone := existingKeyP_none hex
+    obtain ⟨hsearched, s', o, hs', hf, hfound⟩ := getP11KeyP_some hlook
+    obtain ⟨hh, hph, hpkrun⟩ := getP11KeyP_pk hlook
+    have ho : o ∈ s'.objects ∧ o.named label ckoPublic := by
+      have : o ∈ s'.objects.filter (fun o => decide (o.named label (classOfB true))) := by rw [hf]; simp
+      simpa [classOfB] using this
+    have hhandle : hh = o.handle := by
+      have := hfound.2.2.2.2.2
+      rw [hph] at this
+      simpa [classOfB, ckoPublic, ckoSecret] using this
+    subst hhandle
+    obtain ⟨s, hslot, htarget⟩ := hgen.objs_target
+    have hwf' := hgen.wf hw
+    -- the found object is the new public object, in the target slot
+    have hobj : o ∈ st'.objs key.module key.slot := by rw [objs_of_slots hs']; exact ho.1
+    have htgt : key.module = path ∧ key.slot = slot := by
+      by_cases hps : key.module = path ∧ key.slot = slot
+      · exact hps
+      · exfalso
+        rw [hgen.objs_other hps] at hobj
+        exact hnone _ _ hsearched o hobj ho.2.1 (Or.inl ho.2.2)
+    have hnew : o = rsaObj s.next ckoPublic label k := by
+      rw [htgt.1, htgt.2, htarget] at hobj
+      simp only [List.mem_append, List.mem_cons, List.not_mem_nil, or_false] at hobj
+      rcases hobj with hobj | rfl | rfl
+      · exfalso
+        rw [← htgt.1, ← htgt.2] at hobj
+        exact hnone _ _ hsearched o hobj ho.2.1 (Or.inl ho.2.2)
+      · rfl
+      · exfalso
+        have := ho.2.2
+        simp [rsaObj, ckoPublic, ckoPrivate] at this
+    have hrun := p11ObjectToPublicKeyP_rsa (st := st') hs' (hwf' _ _ s' hs').1 ho.1
+      (m := k.modulus) (e := k.exponent) (by rw [hnew]; rfl) (by rw [hnew]; simp [rsaObj, List.lookup])
+      (by rw [hnew]; simp [rsaObj, List.lookup])
+    rw [hrun, hpk] at hpkrun
+    cases henc : rsaEncode (beNat k.exponent) k.modulus with
+    | error f => simp [henc] at hpkrun
+    | ok txt =>
+      simp only [henc, Except.ok.injEq, Option.some.injEq] at hpkrun
+      rw [hpkrun]
 
 /-! ## Deletion -/
 
